@@ -4,6 +4,7 @@ package main
 
 import (
 	"bufio"
+	"context"
 	"encoding/hex"
 	"encoding/json"
 	"fmt"
@@ -19,6 +20,7 @@ import (
 
 	"github.com/fabiolb/fabio/config"
 	"github.com/fabiolb/fabio/metrics"
+	"github.com/fabiolb/fabio/proxy"
 	"github.com/fabiolb/fabio/registry"
 	"github.com/fabiolb/fabio/registry/custom"
 	"github.com/fabiolb/fabio/route"
@@ -56,6 +58,63 @@ type verifC02Cmd struct {
 	Drop   bool   `json:"drop"`
 	Fmt    string `json:"fmt"`
 	Via    string `json:"via"`
+	// Probe: requests to be looked up, after the command has been processed, through the REAL lookup closures of
+	// main.go (newHTTPProxy(...).Lookup, lookupHostFn, lookupHostMatcher: strategy rr, matcher prefix); the
+	// reply carries "served": per probe the target each closure returned
+	Probe []verifC02Probe `json:"probe"`
+}
+
+type verifC02Probe struct {
+	Host string `json:"host"`
+	Path string `json:"path"`
+}
+
+var verifC02Lk struct {
+	once  sync.Once
+	http  func(*http.Request) *route.Target
+	host  func(string) *route.Target
+	match func(context.Context, string) bool
+}
+
+func verifC02Target(t *route.Target) interface{} {
+	if t == nil {
+		return nil
+	}
+	u := ""
+	if t.URL != nil {
+		u = t.URL.String()
+	}
+	return []string{t.Service, u}
+}
+
+// verifC02Served looks the probes up through the closures main() hands to the listeners.
+func verifC02Served(ps []verifC02Probe) []interface{} {
+	verifC02Lk.once.Do(func() {
+		cfg := &config.Config{}
+		cfg.Proxy.Strategy = "rr"
+		cfg.Proxy.Matcher = "prefix"
+		cfg.GlobCacheSize = 1000
+		dp := metrics.DiscardProvider{}
+		nf := dp.NewCounter("notfound")
+		verifC02Lk.http = newHTTPProxy(cfg, &proxy.HttpStatsHandler{Noroute: nf}).Lookup
+		verifC02Lk.host = lookupHostFn(cfg, nf)
+		verifC02Lk.match = lookupHostMatcher(cfg)
+	})
+	out := []interface{}{}
+	for _, p := range ps {
+		req, err := http.NewRequest("GET", "http://probe.invalid/", nil)
+		if err != nil {
+			continue
+		}
+		req.Host = p.Host
+		req.URL.Path = p.Path
+		out = append(out, map[string]interface{}{
+			"http":  verifC02Target(verifC02Lk.http(req)),
+			"host":  verifC02Target(verifC02Lk.host(p.Host)),
+			"match": verifC02Lk.match(context.Background(), p.Host),
+		})
+	}
+	return out
 }
 
 func (c *verifC02Cmd) payload() string {
@@ -329,10 +388,14 @@ func init() {
 		out.WriteByte('\n')
 		out.Flush()
 	}
+	var probe []verifC02Probe
 	dump := func() interface{} {
 		m := map[string]interface{}{"table": route.VerifDump(route.GetTable(), false)}
 		if s != nil && s.be != nil {
 			m["registered"] = s.be.rec.list()
+		}
+		if len(probe) > 0 {
+			m["served"] = verifC02Served(probe)
 		}
 		return m
 	}
@@ -347,6 +410,7 @@ func init() {
 				if s == nil && c.Op != "reset" {
 					s = verifC02Start(mode, &verifC02Cmd{})
 				}
+				probe = c.Probe
 				switch c.Op {
 				case "reset":
 					if s != nil && s.resp != nil {
